@@ -94,7 +94,18 @@ def run(tier):
             ck.count()
             try:
                 t1 = impl.fresh_dumps(copy.deepcopy(d), **kw)
+            except Exception:  # noqa: BLE001
+                continue          # a document that cannot be formatted at all is C01's and C03's business
+            try:
                 d1 = loads(t1)
+            except Exception as ex:  # noqa: BLE001
+                # "for any text t produced by dumps": t must be a Mapfile again (a space as newlinechar joins comments)
+                if o["nl"] != "SP":
+                    flags = ",".join(k for k in ("end_comment", "align_values", "separate_complex_types") if o[k])
+                    ck.violation("C04|formatted-text-rejected|nl=%s|%s" % (o["nl"], flags), "the text dumps produced is not accepted by loads (%s) under %s" % (type(ex).__name__, o),
+                                 {"text": text if len(text) < 5000 else tid, "opts": o, "pass1": t1[:3000]})
+                continue
+            try:
                 t2 = impl.fresh_dumps(copy.deepcopy(d1), **kw)
                 d2 = loads(t2)
                 # "the same dictionary and options always produce the same text": the very same object, dumped twice
